@@ -86,6 +86,15 @@ func (a *raceAccess) owner() string {
 	return ""
 }
 
+func (a *raceAccess) unwinding() bool {
+	for _, f := range a.frames {
+		if strings.HasPrefix(f, "runtime.Goexit") {
+			return true
+		}
+	}
+	return false
+}
+
 // node names the simulated node whose goroutine made the access ("" if the
 // goroutine is not one of the system under test): rt runs every task below a
 // frame callNode<k>.
@@ -120,6 +129,13 @@ func collectRaces(res *Result) {
 	}
 	seen := map[string]bool{}
 	for _, rep := range parseRaceReports(string(data)) {
+		// an access made while a killed task unwinds (the simulated crash ends a task with
+		// runtime.Goexit, so its deferred functions run, and the dying task's lock calls do not
+		// wait): the process would be gone at that point, nothing it touches is judged
+		if rep[0].unwinding() || rep[1].unwinding() {
+			res.Probes["C19:report-during-simulated-kill"]++
+			continue
+		}
 		a, b := rep[0].owner(), rep[1].owner()
 		if a == "" || b == "" {
 			res.Probes["C19:report-involving-harness"]++
